@@ -287,6 +287,32 @@ def rule_io(ctx):
                    'sorted() over (position, part, index) tuples: ties broken by part, then index' if ok else
                    'the interleaving order is sorted %s: examples with equal relative position are no longer ordered by '
                    'part and index' % ('with a key function' if keyed else 'without the (position, part, index) tuples'))
+            # the relative position is ONE correctly rounded quotient of two integers, so that equal fractions (2/4 and
+            # 3/6) are equal floats and really tie; a product with a reciprocal rounds twice and separates some of them
+            for t_ in tup:
+                pos = flow.expand(t_.elt.elts[0], fn)
+                # `for v in [E]` inside the comprehension is a let-binding
+                lets = {g_.target.id: g_.iter.elts[0] for g_ in t_.generators
+                        if isinstance(g_.target, ast.Name) and isinstance(g_.iter, (ast.List, ast.Tuple)) and len(g_.iter.elts) == 1}
+                if lets:
+                    class _Sub(ast.NodeTransformer):
+                        def visit_Name(self, nd):
+                            return A.clone(lets[nd.id]) if nd.id in lets and isinstance(nd.ctx, ast.Load) else nd
+                    pos = _Sub().visit(A.clone(pos))
+                has_div = [x for x in ast.walk(pos) if isinstance(x, ast.BinOp) and isinstance(x.op, ast.Div)]
+                int_like = lambda e: isinstance(e, ast.Name) or A.int_value(e) is not None or (  # noqa: E731
+                    isinstance(e, ast.BinOp) and isinstance(e.op, (ast.Add, ast.Sub)) and int_like(e.left) and int_like(e.right)) or (
+                    isinstance(e, ast.Call) and A.dotted(e.func) == 'len')
+                if isinstance(pos, ast.BinOp) and isinstance(pos.op, ast.Div) and int_like(pos.left) and int_like(pos.right):
+                    rep.ob('IO', K.key(cls, '__init__', 'position-is-one-exact-quotient'), True, t_)
+                elif isinstance(pos, ast.BinOp) and isinstance(pos.op, ast.Mult) and has_div:
+                    rep.ob('IO', K.key(cls, '__init__', 'position-is-one-exact-quotient'), False, t_,
+                           'the relative position `%s` multiplies by a rounded reciprocal: fractions that are equal as '
+                           'rationals (3/5 and 9/15) become different floats, so examples that should tie (earlier dataset '
+                           'first) are ordered by rounding noise for some length pairs' % A.short(pos, 60))
+                else:
+                    rep.undecided('IO', K.key(cls, '__init__', 'position-is-one-exact-quotient'), t_,
+                                  'unrecognised form of the relative position `%s`' % A.short(pos, 60))
         elif last == 'lexsort':
             ok = n.args and isinstance(n.args[0], (ast.Tuple, ast.List)) and len(n.args[0].elts) >= 3
             rep.ob('IO', K.key(cls, '__init__', 'merge-order-is-a-total-order(lexsort)'), bool(ok), n,
